@@ -61,6 +61,119 @@ theorem created_private (φ : Oracle) (p : CPath) (s : RunState) :
       (∃ q m, c = .mkdir q m ∧ ((q = p ∧ m = 0o700) ∨ (q <+: p ∧ q ≠ p ∧ m = 0o777))) :=
   Proofs.C07.created_private φ p s
 
+/-! ### a symbolic link that does not resolve, on the way to a candidate trash directory -/
+
+/-- A candidate that passed its security check and its gate, but on whose path a dangling symbolic
+    link stands (`danglingOnPath`: the first prefix of the path string that does not exist with links
+    followed is itself there, a link that does not resolve), is given up with the error `mkdir(2)`
+    reports (`ENOENT` through the link, `EEXIST` on it) before a single call is issued: nothing is
+    created through the link — file system, trace and history are unchanged, no scripted input is
+    consumed.  Under every fault oracle. -/
+theorem dangling_link_blocks_candidate (φ : Oracle) (c : PutCfg) (path volume : Bytes) (cand : Candidate) (st : PutSt)
+    (s : RunState) (e : Errno)
+    (hsec : securityCheck s.fs c.cwd cand = none) (hgate : gateCheck s.fs c volume cand = none)
+    (hd : danglingOnPath s.fs c.cwd cand.path = some e) :
+    let r := run φ (trashFileIn c path volume cand st) s
+    r.1 = (.error (.mkdirError e), st) ∧ r.2.fs = s.fs ∧ r.2.trace = s.trace ∧ r.2.hist = s.hist :=
+  Proofs.C07.dangling_link_blocks_candidate φ c path volume cand st s e hsec hgate hd
+
+/-- … and the caller goes on to the next candidate, from the very same run state, with the reason recorded. -/
+theorem dangling_link_next_candidate (φ : Oracle) (c : PutCfg) (path volume : Bytes) (cand : Candidate)
+    (rest : List Candidate) (reasons : List Reason) (st : PutSt) (s : RunState) (e : Errno)
+    (hsec : securityCheck s.fs c.cwd cand = none) (hgate : gateCheck s.fs c volume cand = none)
+    (hd : danglingOnPath s.fs c.cwd cand.path = some e) :
+    run φ (tryCandidates c path volume (cand :: rest) reasons st) s =
+      run φ (tryCandidates c path volume rest (.mkdirError e :: reasons) st) s :=
+  Proofs.C07.dangling_link_next_candidate φ c path volume cand rest reasons st s e hsec hgate hd
+
+/-- Non-vacuity: `/t -> /nowhere` (missing).  `--trash-dir /t` meets the hypotheses with `EEXIST`
+    (the link is the path itself), `--trash-dir /t/sub` with `ENOENT` (the link is a proper prefix). -/
+example :
+    (securityCheck Proofs.C07.Ex.fsDangling Proofs.C07.Ex.cfg.cwd Proofs.C07.Ex.candT = none ∧
+     gateCheck Proofs.C07.Ex.fsDangling Proofs.C07.Ex.cfg (b "/") Proofs.C07.Ex.candT = none ∧
+     danglingOnPath Proofs.C07.Ex.fsDangling Proofs.C07.Ex.cfg.cwd Proofs.C07.Ex.candT.path = some .EEXIST) ∧
+    (securityCheck Proofs.C07.Ex.fsDangling Proofs.C07.Ex.cfg.cwd Proofs.C07.Ex.candTSub = none ∧
+     gateCheck Proofs.C07.Ex.fsDangling Proofs.C07.Ex.cfg (b "/") Proofs.C07.Ex.candTSub = none ∧
+     danglingOnPath Proofs.C07.Ex.fsDangling Proofs.C07.Ex.cfg.cwd Proofs.C07.Ex.candTSub.path = some .ENOENT) :=
+  ⟨Proofs.C07.Ex.hyps_T, Proofs.C07.Ex.hyps_TSub⟩
+
+/-- … and the theorem at work there: `trash-put --trash-dir /t /x` gives the candidate up with
+    `mkdirError EEXIST`, the file system is the one it started from. -/
+example :
+    let r := run noFaults (trashFileIn Proofs.C07.Ex.cfg (b "/x") (b "/") Proofs.C07.Ex.candT ⟨[], []⟩)
+      { fs := Proofs.C07.Ex.fsDangling }
+    r.1.1 = .error (.mkdirError .EEXIST) ∧ r.2.fs = Proofs.C07.Ex.fsDangling ∧ r.2.trace = [] := by
+  intro r
+  obtain ⟨h1, h2, h3, _⟩ := dangling_link_blocks_candidate noFaults Proofs.C07.Ex.cfg (b "/x") (b "/") Proofs.C07.Ex.candT
+    ⟨[], []⟩ { fs := Proofs.C07.Ex.fsDangling } .EEXIST Proofs.C07.Ex.hyps_T.1 Proofs.C07.Ex.hyps_T.2.1
+    Proofs.C07.Ex.hyps_T.2.2
+  exact ⟨by rw [h1], h2, h3⟩
+
+/-- One `mkdir_p` on a path string without such an obstacle is `mkdir_p` on the canonical path. -/
+theorem no_dangling_link_mkdirP (φ : Oracle) (cwd : CPath) (p : Bytes) (mode : Nat) (s : RunState)
+    (hd : danglingOnPath s.fs cwd p = none) :
+    run φ (mkdirPStr cwd p mode) s = run φ (mkdirP (dirC s.fs cwd p) mode) s :=
+  Proofs.C07.no_dangling_link_mkdirP φ cwd p mode s hd
+
+/-- `Janitor.trash_file_in` without the dangling-link guard: the three `mkdir_p` go straight to the
+    canonical paths (`dirC` of the state each one starts from).  This is the model as it was before
+    the guard was added, except that `files/` and `info/` handed to `putCore` are canonicalised after
+    the three calls (as `trashFileIn` does now), not after the second and the third. -/
+def trashFileInCanon (c : PutCfg) (path volume : Bytes) (cand : Candidate) (st : PutSt) :
+    Prog (Except Reason Bytes × PutSt) := do
+  let fs ← read
+  match securityCheck fs c.cwd cand with
+  | some r => pure (.error r, st)
+  | none =>
+  match gateCheck fs c volume cand with
+  | some r => pure (.error r, st)
+  | none =>
+  match ← mkdirP (dirC fs c.cwd cand.path) 0o700 with
+  | .error e => pure (.error (.mkdirError e), st)
+  | .ok () =>
+  let fs1 ← read
+  match ← mkdirP (dirC fs1 c.cwd (pjoin cand.path (b "files"))) 0o700 with
+  | .error e => pure (.error (.mkdirError e), st)
+  | .ok () =>
+  let fs2 ← read
+  match ← mkdirP (dirC fs2 c.cwd (pjoin cand.path (b "info"))) 0o700 with
+  | .error e => pure (.error (.mkdirError e), st)
+  | .ok () =>
+  let fs ← read
+  let filesC := dirC fs c.cwd (pjoin cand.path (b "files"))
+  let infoC := dirC fs c.cwd (pjoin cand.path (b "info"))
+  let fs ← read
+  let loc := originalLocation fs c.cwd path cand
+  let content := formatTrashinfoWith loc c.dateStr
+  let srcStr := normpath path
+  putCore infoC filesC (basename loc) content
+    (fun fs' => if pIsmount fs' c.cwd srcStr then .error .EBUSY else resolve fs' c.cwd srcStr) st
+
+/-- The positive companion: when no dangling link stands on the way of any of the three paths — each
+    judged in the state its `mkdir_p` starts from (`h2`, `h3`: after the earlier `mkdir_p`) — the guard
+    is invisible: `trashFileIn` runs exactly as `trashFileInCanon`.  Under every fault oracle. -/
+theorem no_dangling_link_canonical (φ : Oracle) (c : PutCfg) (path volume : Bytes) (cand : Candidate) (st : PutSt)
+    (s : RunState)
+    (h1 : danglingOnPath s.fs c.cwd cand.path = none)
+    (h2 : danglingOnPath (run φ (mkdirP (dirC s.fs c.cwd cand.path) 0o700) s).2.fs c.cwd
+            (pjoin cand.path (b "files")) = none)
+    (h3 : let s1 := (run φ (mkdirP (dirC s.fs c.cwd cand.path) 0o700) s).2
+          danglingOnPath (run φ (mkdirP (dirC s1.fs c.cwd (pjoin cand.path (b "files"))) 0o700) s1).2.fs c.cwd
+            (pjoin cand.path (b "info")) = none) :
+    run φ (trashFileIn c path volume cand st) s = run φ (trashFileInCanon c path volume cand st) s :=
+  Proofs.C07.no_dangling_link_canonical φ c path volume cand st s h1 h2 h3
+
+/-- Non-vacuity: `--trash-dir /t` where nothing is at `/t` yet (the three directories get created). -/
+example :
+    danglingOnPath Proofs.C07.Ex.fsFresh Proofs.C07.Ex.cfg.cwd Proofs.C07.Ex.candT.path = none ∧
+    danglingOnPath (run noFaults (mkdirP (dirC Proofs.C07.Ex.fsFresh Proofs.C07.Ex.cfg.cwd Proofs.C07.Ex.candT.path) 0o700)
+      { fs := Proofs.C07.Ex.fsFresh }).2.fs Proofs.C07.Ex.cfg.cwd (pjoin Proofs.C07.Ex.candT.path (b "files")) = none ∧
+    (let s1 := (run noFaults (mkdirP (dirC Proofs.C07.Ex.fsFresh Proofs.C07.Ex.cfg.cwd Proofs.C07.Ex.candT.path) 0o700)
+        { fs := Proofs.C07.Ex.fsFresh }).2
+     danglingOnPath (run noFaults (mkdirP (dirC s1.fs Proofs.C07.Ex.cfg.cwd (pjoin Proofs.C07.Ex.candT.path (b "files"))) 0o700)
+        s1).2.fs Proofs.C07.Ex.cfg.cwd (pjoin Proofs.C07.Ex.candT.path (b "info")) = none) :=
+  Proofs.C07.Ex.hyps_fresh
+
 /-- a canonical path none of whose ancestors-or-self is a symlink or missing: all are directories -/
 def Plain (fs : FS) (p : CPath) : Prop := ∀ q, q <+: p → fs.isDirAt q = true
 
